@@ -62,6 +62,7 @@ type Oblig struct {
 	Roots    []string           `json:"roots"`
 	Unwind   int                `json:"unwind"`
 	Native   bool               `json:"native"` // harness can be replayed natively (no engine-only models)
+	Race     bool               `json:"race_check"` // happens-before race detection on heap cells and maps
 	Sched    bool               `json:"sched"`  // schedule-dependent: a native run is best-effort (the Go scheduler picks the interleaving)
 	Renames  []Rename           `json:"renames"`
 	Rewrites []Rewrite          `json:"rewrites"`
@@ -427,6 +428,7 @@ func runOblig(o *Oblig, tier string) *ObligResult {
 	ex := symgo.NewExplorer(solver, lim)
 	ex.Oblig = o.ID
 	ex.Params = tc.Params
+	ex.RaceCheck = o.Race
 	if o.Native && os.Getenv("VERIF_NO_VALIDATE") == "" {
 		ex.MaxVectors = 6
 		if tier == "thorough" {
@@ -480,6 +482,7 @@ func runOblig(o *Oblig, tier string) *ObligResult {
 		ex2 := symgo.NewExplorer(solver, lim)
 		ex2.Oblig = o.ID
 		ex2.Params = tc.Params
+		ex2.RaceCheck = o.Race
 		prog.ReplayConcrete(o.Entry, ex2, v.Inputs, v.UF)
 		if len(ex2.Viols) > 0 {
 			v.Replayed = "engine-concrete: reproduced (" + ex2.Viols[0].Kind + " " + ex2.Viols[0].Label + ")"
